@@ -416,8 +416,8 @@ func genModule(r *base.Rand, nPairs int, startFeature int) *c05module {
 	ifc.WriteString("package ifc\n\ntype Item struct{ N int }\n\ntype ID int\n\ntype AliasItem = Item\n\ntype AliasInt = int\n\n// SealBase lets other packages implement sealed interfaces by embedding it.\ntype SealBase struct{}\n\nfunc (SealBase) sealed() {}\n\n")
 	alt.WriteString("package altname\n\nimport \"m5/ifc\"\n\nvar _ ifc.ID\n\ntype Item struct{ Other string }\n\n")
 	implFiles := []*strings.Builder{{}, {}, {}, {}}
-	implFiles[0].WriteString("package impl\n\nimport (\n\t\"m5/ifc\"\n\tifc2 \"m5/v2/ifc\"\n\t\"m5/yy\"\n)\n\nvar _ ifc.ID\nvar _ altname.Item\nvar _ ifc2.Item\n\ntype Loc struct{}\n\ntype LocAlias = Loc\n\n// TinyX and EmptyX are targets of second annotation lines.\ntype TinyX interface{ TinyM() }\n\ntype EmptyX interface{}\n\n")
-	implFiles[1].WriteString("package impl\n\nimport (\n\tii \"m5/ifc\"\n\tifc2 \"m5/v2/ifc\"\n\taa \"m5/yy\"\n)\n\nvar _ ii.ID\nvar _ aa.Item\nvar _ ifc2.Item\n\n")
+	implFiles[0].WriteString("package impl\n\nimport (\n\tifc0 \"m5/aa/ifc\"\n\t\"m5/ifc\"\n\tifc2 \"m5/v2/ifc\"\n\t\"m5/yy\"\n)\n\nvar _ ifc0.Item\nvar _ ifc.ID\nvar _ altname.Item\nvar _ ifc2.Item\n\ntype Loc struct{}\n\ntype LocAlias = Loc\n\n// TinyX and EmptyX are targets of second annotation lines.\ntype TinyX interface{ TinyM() }\n\ntype EmptyX interface{}\n\n")
+	implFiles[1].WriteString("package impl\n\nimport (\n\tii `m5/ifc`\n\tifc2 \"m5/v2/ifc\"\n\taa \"m5/yy\"\n)\n\nvar _ ii.ID\nvar _ aa.Item\nvar _ ifc2.Item\n\n")
 	implFiles[2].WriteString("package impl\n\nimport (\n\taa \"m5/ifc\"\n\tifc2 \"m5/v2/ifc\"\n\tii \"m5/yy\"\n)\n\nvar _ aa.ID\nvar _ ii.Item\nvar _ ifc2.Item\n\n")
 	implFiles[3].WriteString("package impl\n\nimport _ \"m5/ifc\"\n\n") // blank import only
 	for _, p := range m.pairs {
@@ -624,6 +624,7 @@ func genModule(r *base.Rand, nPairs int, startFeature int) *c05module {
 	m.pairs = append(m.pairs, twins...)
 	m.files["ifc/ifc.go"] = ifc.String()
 	m.files["v2/ifc/ifc.go"] = "package ifc\n\ntype Item struct{ X bool }\n"
+	m.files["aa/ifc/ifc.go"] = "package ifc\n\n// a package with the same declared name, imported under another name by f0.go and sorted before m5/ifc\ntype Item struct{ Y string }\n"
 	m.files["yy/alt.go"] = alt.String()
 	for i, b := range implFiles {
 		m.files[fmt.Sprintf("impl/f%d.go", i)] = b.String()
@@ -669,6 +670,7 @@ type c05expect struct {
 	missing []string
 	free    bool
 	why     string
+	lastElem bool // the qualifier matches only the last path element of an import whose declared name differs
 }
 
 var implAnnRe = regexp.MustCompile(`^//\s*@implements\s+(&)?(?:(\w+)\.)?(\w+)`)
@@ -705,6 +707,7 @@ func c05oracle(dir string) (map[string]c05expect, error) {
 				}
 				m.missing = append(m.missing, e.missing...)
 				m.free = m.free || e.free
+				m.lastElem = m.lastElem || e.lastElem
 				if e.why != "" {
 					m.why += e.why + "; "
 				}
@@ -759,7 +762,8 @@ func c05oracle(dir string) (map[string]c05expect, error) {
 						}
 						if target == nil {
 							if lastElemOnly {
-								exp.free, exp.why = true, "qualifier matches only the last path element of an import whose declared name differs"
+								exp.code, exp.why = "IMPL01", "qualifier matches only the last path element of an import whose declared name differs: not bound"
+					exp.lastElem = true
 							} else {
 								exp.code, exp.why = "IMPL01", "qualifier not bound by any import of the file"
 							}
@@ -916,6 +920,11 @@ func checkC05(replay string) {
 			mu.Lock()
 			classes[cls]++
 			mu.Unlock()
+			if gotCode != e.code && e.lastElem && !strings.Contains(gotCode, "IMPL01") {
+				// known finding: util.ImportMap.Find priorities 3/4 (pinned by TestImportMapFindByPackageName)
+				r.Violate("IMPL/last-path-element-qualifier-accepted", fmt.Sprintf("module %d type %s: annotation qualifier %q is only the last path element of an import whose declared package name differs; no import of the file binds it, IMPL01 expected, tool reported %q", mi, p.tname, p.qualifier, gotCode), fs)
+				continue
+			}
 			if gotCode != e.code {
 				dir := "spurious-" + gotCode
 				if gotCode == "" {
